@@ -25,8 +25,9 @@ def validate(v, module, cfg, trace_file, label):
         v.add_cov(traces_validated_against_impl=len(traces))
         return True
     pos = vlib.cex_last_l(r["cex"]) if r["cex"] else None
+    txt = vlib.text_last_state(r["out"]) if pos is None else {}
     if pos is None:
-        pos = (r["consumed"] or 0) + 1
+        pos = txt.get("l") or (r["consumed"] or 0) + 1
     upto, bad_trace = 0, None
     for t in traces:
         upto += len(t)
@@ -43,6 +44,9 @@ def validate(v, module, cfg, trace_file, label):
         sig = r["violated"]
         if r["violated"] == "NoMismatch" and sts and sts[-1].get("bad"):
             sig = "NoMismatch:" + str(sts[-1]["bad"][0][0])
+        elif r["violated"] == "NoMismatch" and txt.get("first_tag"):
+            sig = "NoMismatch:" + txt["first_tag"]
+            detail = " bad=" + txt.get("bad_text", "")[:600]
         v.violation(sig, f"{label}: invariant {r['violated']} violated on a recorded execution of the real frps at event {pos}{detail}", rp)
     else:
         ev = r["stuck_event"]
